@@ -3,6 +3,7 @@ package main
 // Calls: builtins, locks, atomics, callee contracts (modular), trusted externs, benign and opaque calls.
 
 import (
+	"os"
 	"fmt"
 	"go/constant"
 	"go/token"
@@ -52,6 +53,9 @@ func (t *fnTrans) call(c *ssa.CallCommon, res ssa.Value, pos token.Pos) Val {
 		return t.builtin(b, c, res, pos)
 	}
 	key := calleeKey(c)
+	if t.fc != nil && t.fc.NoReturn && t.inl == nil {
+		t.cover("call " + key) // vacuity guard of a `noreturn` function: its calls are reachable
+	}
 	// argument values (receiver first for invoke)
 	var args []Val
 	var argTys []types.Type
@@ -81,6 +85,9 @@ func (t *fnTrans) call(c *ssa.CallCommon, res ssa.Value, pos token.Pos) Val {
 	if fn == nil && !c.IsInvoke() {
 		// call of a function value: statically known closure?
 		v := t.val(c.Value)
+		if v.Fn == nil {
+			v = t.capturedClosure(c.Value, v)
+		}
 		if v.Fn != nil {
 			fn = v.Fn
 			key = fn.String()
@@ -101,6 +108,9 @@ func (t *fnTrans) call(c *ssa.CallCommon, res ssa.Value, pos token.Pos) Val {
 			}
 		}
 	}
+	if key == "(*github.com/nsqio/nsq/internal/util.WaitGroupWrapper).Wrap" {
+		t.wrapSpawn(c, pos)
+	}
 	// built-in models
 	if r, ok := t.modelCall(key, fn, args, argTys, resTy, pos); ok {
 		return r
@@ -109,6 +119,16 @@ func (t *fnTrans) call(c *ssa.CallCommon, res ssa.Value, pos token.Pos) Val {
 	// the callee has a verified contract of its own (which may be weaker, e.g. without a frame)
 	if fc, ok := t.eng.contracts.Externs[key+"@"+t.callerPkgPath()]; ok {
 		t.usedExterns[key+"@"+t.callerPkgPath()] = true
+		if fn != nil {
+			if own := t.eng.contractOf(fn); own != nil && !own.Extern {
+				// the callee is a repository function under contract: its own verification stays part of every property that
+				// calls it through the scoped extern (the extern is an assumption ABOUT that function, listed in the evidence)
+				if t.shadowed == nil {
+					t.shadowed = map[string]*FuncContract{}
+				}
+				t.shadowed[key] = own
+			}
+		}
 		return t.applyContract(fc, key, c.Signature(), fn, args, argTys, resTy, pos)
 	}
 	if fn != nil {
@@ -411,12 +431,128 @@ func (t *fnTrans) modelCall(key string, fn *ssa.Function, args []Val, argTys []t
 	return Val{}, false
 }
 
+// capturedClosure: the called value is loaded from a variable of the ENCLOSING function that this function literal captures
+// (`exitFunc := func(err error) {..}` in Main, called as `exitFunc(..)` inside the goroutine literals of Main). When that variable is
+// assigned exactly once in the enclosing function, and with a function literal, the call is a static call of that literal; its captured
+// variables are the enclosing function's variables - the ones this literal captures too are passed on, the others are unknown cells.
+func (t *fnTrans) capturedClosure(callee ssa.Value, v Val) Val {
+	ld, ok := callee.(*ssa.UnOp)
+	if !ok || ld.Op != token.MUL {
+		return v
+	}
+	fv, ok := ld.X.(*ssa.FreeVar)
+	if !ok || t.fn.Parent() == nil {
+		return v
+	}
+	idx := -1
+	for i, f := range t.fn.FreeVars {
+		if f == fv {
+			idx = i
+		}
+	}
+	if idx < 0 {
+		return v
+	}
+	parent := t.fn.Parent()
+	var mine *ssa.MakeClosure
+	for _, b := range parent.Blocks {
+		for _, in := range b.Instrs {
+			if mc, ok := in.(*ssa.MakeClosure); ok && mc.Fn == t.fn {
+				if mine != nil {
+					return v // created at two places: bindings may differ
+				}
+				mine = mc
+			}
+		}
+	}
+	if mine == nil || idx >= len(mine.Bindings) {
+		return v
+	}
+	cell, ok := mine.Bindings[idx].(*ssa.Alloc)
+	if !ok || cell.Referrers() == nil {
+		return v
+	}
+	// exactly one store into the captured variable, of a function literal; every other use is a capture or a load
+	var lit *ssa.MakeClosure
+	for _, r := range *cell.Referrers() {
+		switch x := r.(type) {
+		case *ssa.Store:
+			if x.Addr != cell || lit != nil {
+				return v
+			}
+			mc, ok := x.Val.(*ssa.MakeClosure)
+			if !ok {
+				return v
+			}
+			// the assignment comes before this literal is created (so the variable is set whenever this literal runs)
+			if x.Block() == mine.Block() {
+				si, mi := -1, -1
+				for i, in := range x.Block().Instrs {
+					if in == ssa.Instruction(x) {
+						si = i
+					}
+					if in == ssa.Instruction(mine) {
+						mi = i
+					}
+				}
+				if si < 0 || mi < 0 || si > mi {
+					return v
+				}
+			} else if !x.Block().Dominates(mine.Block()) {
+				return v
+			}
+			lit = mc
+		case *ssa.MakeClosure, *ssa.UnOp, *ssa.DebugRef:
+		default:
+			return v
+		}
+	}
+	if lit == nil {
+		return v
+	}
+	// a literal that captures the variable could assign it: look for stores through the captured pointer in the literals of the parent
+	for _, af := range parent.AnonFuncs {
+		for _, b := range af.Blocks {
+			for _, in := range b.Instrs {
+				if st, ok := in.(*ssa.Store); ok {
+					if f, ok := st.Addr.(*ssa.FreeVar); ok && f.Name() == fv.Name() && f.Type() == fv.Type() {
+						return v
+					}
+				}
+			}
+		}
+	}
+	fn := lit.Fn.(*ssa.Function)
+	var bnd []Val
+	for _, lb := range lit.Bindings {
+		found := false
+		for j, mb := range mine.Bindings {
+			if mb == lb && j < len(t.fn.FreeVars) {
+				bnd = append(bnd, t.val(t.fn.FreeVars[j]))
+				found = true
+				break
+			}
+		}
+		if !found {
+			n := t.fresh("capt", "Int")
+			t.assume(fmt.Sprintf("(and (< 0 %s) (<= %s %s))", n, n, t.get(t.cur, "alloc")))
+			bnd = append(bnd, Val{T: n})
+		}
+	}
+	return Val{T: v.T, Fn: fn, Bnd: bnd}
+}
+
 // lockOp: monitor reasoning. At Lock the guarded fields of that object are arbitrary and the
 // lock invariant is assumed; at Unlock the invariant and the two-state guarantee are obligations.
 func (t *fnTrans) lockOp(m Val, acquire bool, key string, pos token.Pos) {
 	p := m.P
 	if p == nil || p.Ref == "" || len(p.Sels) == 0 {
 		t.assumptions["lock operation on a mutex without a lock item (function-local or unmodelled) at "+t.posStr(pos)] = true
+		if p != nil && p.Ref != "" && p.ArrOf == "" {
+			t.anonLockMode(p.Ref, acquire, key)
+		} else if p == nil && m.T != "" {
+			t.anonLockMode(m.T, acquire, key)
+		}
 		if acquire && t.fc != nil {
 			// a function-local mutex (captured by worker closures): the function's `lockassume`
 			// clauses state its monitor invariant; they are assumptions, reported as such
@@ -448,7 +584,10 @@ func (t *fnTrans) lockOp(m Val, acquire bool, key string, pos token.Pos) {
 		}
 	}
 	if ls == nil {
-		t.assumptions[fmt.Sprintf("no lock invariant declared for %s.%s (lock/unlock is a no-op for the proof)", stName, strings.Join(names, "."))] = true
+		t.assumptions[fmt.Sprintf("no lock invariant declared for %s.%s (lock/unlock is a no-op for the proof except for the lock-balance obligations)", stName, strings.Join(names, "."))] = true
+		if addr := t.fieldAddrTerm(p); addr != "" {
+			t.anonLockMode(addr, acquire, key)
+		}
 		return
 	}
 	t.usedLocks[stName+"."+ls.Field] = true
@@ -619,6 +758,30 @@ func (t *fnTrans) lockOp(m Val, acquire bool, key string, pos token.Pos) {
 		t.assume(t.wf(nv, sv.Typ))
 		t.set(sv.Name, fmt.Sprintf("(store %s %s %s)", t.get(t.cur, sv.Name), self, nv))
 	}
+}
+
+// anonLockMode: a mutex without a lock item (function-local, captured by worker closures, or a struct field nobody declared): nothing is known
+// about what it guards, but the lock-balance obligations apply to it as to every other mutex - the function returns (and every loop iteration
+// ends) holding it exactly as it did at the start. The mode is kept per mutex address in the ghost array LK_anon.
+func (t *fnTrans) anonLockMode(addr Term, acquire bool, key string) {
+	if os.Getenv("NSQVC_NO_ANONLOCK") != "" {
+		return
+	}
+	lm := t.stateVar("LK_anon", "(Array Int Int)", "lockmode", false, nil)
+	if t.lockSites == nil {
+		t.lockSites = map[string][2]string{}
+	}
+	t.lockSites[lm.Name+"|"+addr] = [2]string{lm.Name, addr}
+	if acquire {
+		t.assume(fmt.Sprintf("(= (select %s %s) 0)", t.get(t.cur, lm.Name), addr)) // not reentrant
+		mode := "2"
+		if strings.HasSuffix(key, ".RLock") {
+			mode = "1"
+		}
+		t.set(lm.Name, fmt.Sprintf("(store %s %s %s)", t.get(t.cur, lm.Name), addr, mode))
+		return
+	}
+	t.set(lm.Name, fmt.Sprintf("(store %s %s 0)", t.get(t.cur, lm.Name), addr))
 }
 
 // lockModeVar: per lock item, the mode in which the executing function holds that mutex of each object.
@@ -1126,6 +1289,9 @@ func (t *fnTrans) applyContract(fc *FuncContract, key string, sig *types.Signatu
 		}
 		return a, true
 	}
+	if fc.NoReturn {
+		t.assume("false") // `noreturn`: nothing after this call is reachable
+	}
 	if len(insts) == 0 {
 		for _, c := range fc.Ensures {
 			if a, ok := assumeClause(c); ok {
@@ -1190,7 +1356,8 @@ func (t *fnTrans) spawn(in *ssa.Go) {
 		}
 		t.spawned[key] = fc
 	}
-	if fc == nil || len(fc.OnSpawn) == 0 {
+	checkReq := fc != nil && !fc.Extern && !fc.Trusted && len(fc.Requires) > 0 && os.Getenv("NSQVC_NO_SPAWNREQ") == ""
+	if fc == nil || (len(fc.OnSpawn) == 0 && !checkReq) {
 		return
 	}
 	var args []Val
@@ -1202,6 +1369,15 @@ func (t *fnTrans) spawn(in *ssa.Go) {
 	for _, a := range c.Args {
 		args = append(args, t.val(a))
 		argTys = append(argTys, a.Type())
+	}
+	var bnd []Val
+	if mc, ok := c.Value.(*ssa.MakeClosure); ok {
+		for _, x := range mc.Bindings {
+			bnd = append(bnd, t.val(x))
+		}
+	} else if v := t.val(c.Value); v.Fn != nil && fn == nil {
+		fn = v.Fn
+		bnd = v.Bnd
 	}
 	pkg := t.fn.Pkg.Pkg
 	if fc.PkgPath != "" {
@@ -1230,8 +1406,115 @@ func (t *fnTrans) spawn(in *ssa.Go) {
 		}
 		env.vars[names[i]] = bound{Val{T: t.term(a)}, argTys[i]}
 	}
+	if fn != nil && len(fn.FreeVars) > 0 && len(bnd) == len(fn.FreeVars) {
+		for i, fv := range fn.FreeVars {
+			if pt, ok := fv.Type().(*types.Pointer); ok {
+				p := bnd[i].P
+				if p == nil {
+					p = &Path{Ref: t.term(bnd[i]), Typ: pt.Elem()}
+				}
+				env.vars[fv.Name()] = bound{Val{P: p, T: ""}, pt.Elem()}
+			}
+		}
+	}
 	t.usedContracts[key] = fc
+	if checkReq && (len(fn.FreeVars) == 0 || len(bnd) == len(fn.FreeVars)) {
+		t.goRequires(fn, fc, env, in.Pos())
+	}
 	t.applyGhostSets(fc.OnSpawn, env)
+}
+
+// goRequires: the body of a goroutine is verified under its `requires`: they are obligations where it is started (in the state of the
+// `go` statement - or of the WaitGroupWrapper.Wrap call that starts it; what other goroutines do between the statement and the first
+// instruction of the new one is outside the model).
+func (t *fnTrans) goRequires(fn *ssa.Function, fc *FuncContract, env *Env, pos token.Pos) {
+	{
+		short := t.eng.displayName(fn)
+		for i, cl := range fc.Requires {
+			nm := cl.Name
+			if nm == "" {
+				nm = fmt.Sprint(i)
+			}
+			if strings.HasPrefix(nm, "typing") {
+				// a clause that only restates the machine type of a ghost's field (`typing`: 0 <= m.Attempts < 65536) is not an obligation
+				t.assumptions["typing clause of the goroutine "+short+" is taken as a type fact at its `go` statement: "+cl.Src] = true
+				continue
+			}
+			if strings.HasPrefix(nm, "env-") {
+				// `requires[env-...]`: an assumption about the rest of the process that the spawner cannot establish (reported)
+				t.assumptions["environment assumption of the goroutine "+short+" (not an obligation of its `go` statement): "+cl.Src] = true
+				continue
+			}
+			t.oblige("requires", "go "+short+"."+nm, "precondition of the goroutine "+short+" at its `go` statement: "+cl.Src, env.boolOf(cl.Expr), pos)
+		}
+	}
+}
+
+// wrapSpawn: `wg.Wrap(f)` (internal/util.WaitGroupWrapper) starts f in a goroutine of its own: when f is statically known - a function
+// literal or a method value `n.queueScanLoop` - and under contract, its preconditions are obligations at the Wrap call.
+func (t *fnTrans) wrapSpawn(c *ssa.CallCommon, pos token.Pos) {
+	if len(c.Args) != 2 || os.Getenv("NSQVC_NO_SPAWNREQ") != "" {
+		return
+	}
+	v := t.val(c.Args[1])
+	if v.Fn == nil {
+		return
+	}
+	fn := v.Fn
+	bnd := v.Bnd
+	env := &Env{t: t, st: t.cur, old: t.cur.clone(), vars: map[string]bound{}, pkg: t.fn.Pkg.Pkg}
+	if strings.HasSuffix(fn.String(), "$bound") {
+		// method value: the contract is the method's, the bound value is its receiver
+		name := strings.TrimSuffix(fn.String(), "$bound")
+		var m *ssa.Function
+		for f := range t.eng.fnContract {
+			if f.String() == name {
+				m = f
+			}
+		}
+		if m == nil || len(bnd) != 1 {
+			return
+		}
+		fc := t.eng.fnContract[m]
+		if fc == nil || fc.Extern || fc.Trusted || len(fc.Requires) == 0 {
+			return
+		}
+		if m.Pkg != nil {
+			env.pkg = m.Pkg.Pkg
+		}
+		env.vars[fc.RecvName] = bound{Val{T: t.term(bnd[0])}, m.Signature.Recv().Type()}
+		if t.spawned == nil {
+			t.spawned = map[string]*FuncContract{}
+		}
+		t.spawned[m.String()] = fc
+		t.goRequires(m, fc, env, pos)
+		return
+	}
+	fc := t.eng.contractOf(fn)
+	if fc == nil || fc.Extern || fc.Trusted || len(fn.FreeVars) != len(bnd) {
+		return
+	}
+	if fn.Pkg != nil {
+		env.pkg = fn.Pkg.Pkg
+	} else if fn.Parent() != nil && fn.Parent().Pkg != nil {
+		env.pkg = fn.Parent().Pkg.Pkg
+	}
+	for i, fv := range fn.FreeVars {
+		if pt, ok := fv.Type().(*types.Pointer); ok {
+			p := bnd[i].P
+			if p == nil {
+				p = &Path{Ref: t.term(bnd[i]), Typ: pt.Elem()}
+			}
+			env.vars[fv.Name()] = bound{Val{P: p, T: ""}, pt.Elem()}
+		}
+	}
+	if t.spawned == nil {
+		t.spawned = map[string]*FuncContract{}
+	}
+	t.spawned[fn.String()] = fc
+	if len(fc.Requires) > 0 {
+		t.goRequires(fn, fc, env, pos)
+	}
 }
 
 func (t *fnTrans) applyGhostSets(sets []*GhostSet, post *Env) {
